@@ -1,3 +1,4 @@
+pub mod capi;
 pub mod echo;
 pub mod enc;
 pub mod esc;
@@ -9,11 +10,13 @@ pub mod memrw;
 pub mod memts;
 pub mod scope;
 pub mod selpure;
+pub mod thr;
 
 pub type LaneFn = fn(&str) -> String;
 
 pub fn find(name: &str) -> Option<LaneFn> {
     Some(match name {
+        "capi" => capi::run,
         "echo" => echo::run,
         "enc" => enc::run,
         "esc" => esc::run,
@@ -25,6 +28,7 @@ pub fn find(name: &str) -> Option<LaneFn> {
         "memts" => memts::run,
         "scope" => scope::run,
         "selpure" => selpure::run,
+        "thr" => thr::run,
         _ => return None,
     })
 }
